@@ -1,5 +1,6 @@
 pub mod c01;
 pub mod common;
+pub mod concprops;
 pub mod seqdom;
 pub mod seqprops;
 
@@ -13,5 +14,8 @@ pub fn all() -> Vec<Box<dyn Prop>> {
         Box::new(seqprops::C10),
         Box::new(seqprops::C11),
         Box::new(seqprops::C16),
+        Box::new(concprops::C06),
+        Box::new(concprops::C07),
+        Box::new(concprops::C18),
     ]
 }
